@@ -2,6 +2,7 @@
 package c17
 
 import (
+	"bytes"
 	"encoding/binary"
 	"encoding/hex"
 	"encoding/json"
@@ -40,6 +41,9 @@ type codec struct {
 	// canon, if set, is the form compared for equality instead of enc (the
 	// compressed P2P form is not canonical: the compressor may choose freely).
 	canon func(v any) ([]byte, error)
+	// seedEnc, if set, produces the mutation seeds instead of enc (it must be
+	// deterministic; the LZ4 compressor is not).
+	seedEnc func(v any) ([]byte, error)
 	// noBytes: encodings are not compared byte-wise (map iteration order).
 	noBytes bool
 	// label names the field a byte offset of a canonical encoding belongs to.
@@ -227,7 +231,14 @@ func semEq(a, b reflect.Value, path string, depth int) (bool, string) {
 			y = []byte("null")
 		}
 		if string(x) != string(y) {
-			return false, path
+			// the same JSON value may be spelled differently (escapes, spaces)
+			var vx, vy any
+			dx, dy := json.NewDecoder(bytes.NewReader(x)), json.NewDecoder(bytes.NewReader(y))
+			dx.UseNumber()
+			dy.UseNumber()
+			if dx.Decode(&vx) != nil || dy.Decode(&vy) != nil || !reflect.DeepEqual(vx, vy) {
+				return false, path
+			}
 		}
 		return true, ""
 	}
